@@ -226,6 +226,13 @@ func genSchema(r *hx.Rand) *SchemaDesc {
 		hx.Shuffle(r, ms)
 		d.Types = append(d.Types, TypeDesc{Kind: "union", Name: n, Members: ms[:r.Range(1, len(ms))]})
 	}
+	// Boolean and String are always referenced by the user schema: the introspection types use
+	// them, but `namedType` only resolves built-in scalars that the schema itself mentions (a
+	// variable of type Boolean in a schema that never mentions Boolean is "unknown type"; both
+	// sides of this check agree on that, the generator just avoids relying on it).
+	if q := d.typ("Query"); q != nil {
+		q.Fields = append(q.Fields, FieldDesc{Name: "ok", Type: Named("Boolean"), Args: []InputDesc{{Name: "flag", Type: Named("Boolean")}, {Name: "note", Type: Named("String")}}})
+	}
 	d.Query = "Query"
 	if withMutation {
 		d.Mutation = "Mutation"
